@@ -30,8 +30,7 @@ Abs(x) == IF x < 0 THEN -x ELSE x
 RECURSIVE Sum(_, _)
 Sum(f, n) == IF n = 0 THEN 0 ELSE f[n] + Sum(f, n - 1)      \* f[1] + .. + f[n]
 
-RECURSIVE Pow2(_)
-Pow2(k) == IF k <= 0 THEN 1 ELSE 2 * Pow2(k - 1)            \* k in 0..30
+Pow2(k) == IF k <= 0 THEN 1 ELSE 2 ^ k                      \* k in 0..30
 
 RECURSIVE Gcd(_, _)
 Gcd(a, b) == IF b = 0 THEN a ELSE Gcd(b, a % b)             \* a, b >= 0
@@ -295,10 +294,13 @@ ZeroEigs(A) ==
    real solution is X'[j] = 2^-ce[j] X[j], and the driver multiplies the
    column scaling back exactly before quantising).
    c.ret : 0 iff gj_solve returned 0.0;  c.X[i][j] = round(x * 2^c.q);
+   c.XF[i][j] = round((x * 2^q - X) * 2^20), the next 20 bits;
    c.ok : every returned entry finite and |x * 2^q| < c.lim.
    c.mode = "resid": TLC checks the residual |A X - 2^q B|;
-   c.mode = "exact": c.X0 is an integer solution, A X0 = B (checked), and
-          TLC compares X with 2^q X0.
+   c.mode = "exact": c.X0 / c.den is the solution, A X0 = den B (checked;
+          den = 1: integer solution, den = 3: thirds, which no floating-
+          point division returns exactly), and TLC compares den X with
+          2^q X0.
    Quantisation: |X - 2^q x| <= 1/2 per entry, hence
    |A X - 2^q B|_i <= RowAbs(A, i) / 2 for the exactly rounded true solution;
    GjSlack (units of 2^-q) is what floating-point rounding may add.        *)
@@ -309,33 +311,108 @@ GjResidOK(c) ==
             <= RowAbs(c.A, i) + 2 * GjSlack
 GjExactOK(c) ==
     \A i \in 1..c.n : \A j \in 1..c.nb :
-        Abs(c.X[i][j] - Pow2(c.q) * c.X0[i][j]) <= 1 + GjSlack
+        Abs(c.den * c.X[i][j] - Pow2(c.q) * c.X0[i][j])
+            <= c.den * (1 + GjSlack)
 GjSolutionOK(c) ==
     c.ok /\ IF c.mode = "exact" THEN GjExactOK(c) ELSE GjResidOK(c)
+
+(* Accuracy "bounded by the conditioning of the matrix" (exact mode, q = 20).
+   The driver records a second limb c.XF: x * 2^40 ~ X * 2^20 + XF, so the
+   error of the returned solution is known at a resolution of 2^-40.  The
+   bound is  |x - x0| <= K n^2 |R|max |R^-1|max u |x0|max  with
+     R = the real matrix 2^re[i] A[i][j] 2^ce[j],  u = 2^-53,
+     R^-1[i][j] = Adj(A)[i][j] 2^(-ce[i] - re[j]) / Det(A)   (exactly),
+     n^2 |R|max |R^-1|max >= cond_inf(R);  K = 16 allows for element growth
+   and the constants of backward error analysis.  Magnitudes are kept as
+   <<mantissa, exponent>> pairs, the mantissa rounded up to 8 bits, so that
+   everything fits in 32 bits.  In units of 2^-40 the tolerance is
+   2 (quantisation) + GjCondTol; when that exceeds 2^18 only the coarse
+   comparison above applies.                                               *)
+RECURSIVE MaxScaled(_, _)       \* largest m * 2^e among f[1..k], f[i] = <<m, e>>
+MaxScaled(f, k) ==
+    IF k = 1 THEN f[1]
+    ELSE LET m == MaxScaled(f, k - 1)
+         IN IF LtScaled(m[1], m[2], f[k][1], f[k][2]) THEN f[k] ELSE m
+\* adjugate with the minors computed by fraction-free elimination
+AdjB(A) == LET n == Rows(A)
+           IN [i \in 1..n |-> [j \in 1..n |->
+                 (IF (i + j) % 2 = 0 THEN 1 ELSE -1) * DetB(Minor(A, j, i))]]
+RECURSIVE Norm8(_)
+Norm8(p) == IF p[1] < 256 THEN p ELSE Norm8(<<(p[1] + 1) \div 2, p[2] + 1>>)
+RECURSIVE NormDown8(_)
+NormDown8(p) == IF p[1] < 256 THEN p ELSE NormDown8(<<p[1] \div 2, p[2] + 1>>)
+GjCondTol(c) ==
+    LET n == c.n
+        \* small entries: minors by elimination (fast); a row of large
+        \* entries: by Laplace expansion (linear in the large entries)
+        ad == IF \A i, j \in 1..n : Abs(c.A[i][j]) < 1024
+              THEN AdjB(c.A) ELSE Adj(c.A)
+        I == 1..n
+        R(k) == ((k - 1) \div n) + 1
+        C(k) == ((k - 1) % n) + 1
+        a == Norm8(MaxScaled(
+                [k \in 1..(n * n) |-> <<Abs(c.A[R(k)][C(k)]),
+                                        c.re[R(k)] + c.ce[C(k)]>>], n * n))
+        b == Norm8(MaxScaled(
+                [k \in 1..(n * n) |-> <<Abs(ad[R(k)][C(k)]),
+                                        -(c.ce[R(k)] + c.re[C(k)])>>], n * n))
+        xs == {Abs(c.X0[i][j]) : i \in I, j \in 1..c.nb} \cup {1}
+        xm == CHOOSE x \in xs : \A y \in xs : y <= x
+        \* |Det| = dm * 2^de, dm rounded down to 8 bits (the bound grows)
+        dn == NormDown8(<<Abs(Det(c.A)), 0>>)
+        num == 16 * n * n * xm * a[1] * b[1]
+        e == a[2] + b[2] - dn[2] - 13
+        d == dn[1]
+    IN IF xm > 8 \/ e > 2 THEN 262144
+       ELSE IF e >= 0 THEN ((num * Pow2(e)) \div d) + 1
+       ELSE IF -e > 29 THEN 1
+       ELSE ((num \div Pow2(-e)) \div d) + 1
+GjFineDev(c, i, j) ==
+    Abs((c.den * c.X[i][j] - Pow2(20) * c.X0[i][j]) * Pow2(20)
+        + c.den * c.XF[i][j])
+GjFineOK(c) ==
+    (c.mode = "exact" /\ c.q = 20) =>
+        \* the conditioning is worked out only when the error exceeds the
+        \* smallest possible tolerance (2 + 1 units)
+        \/ \A i \in 1..c.n : \A j \in 1..c.nb :
+               GjFineDev(c, i, j) <= c.den * 3
+        \/ LET t == GjCondTol(c)
+           IN t < 262144 =>
+                \A i \in 1..c.n : \A j \in 1..c.nb :
+                    GjFineDev(c, i, j) <= c.den * (2 + t)
 GjWellFormed(c) ==
     /\ IsMat(c.A, c.n, c.n, Int) /\ IsMat(c.B, c.n, c.nb, Int)
     /\ IsMat(c.X, c.n, c.nb, Int)
+    /\ IsMat(c.XF, c.n, c.nb, -524288..524288)
     /\ Len(c.re) = c.n /\ Len(c.ce) = c.n
-    /\ c.mode = "exact" => SolvesMat(c.A, c.X0, c.B)
+    /\ c.den \in 1..3
+    /\ c.mode = "exact" => SolvesMat(c.A, c.X0, Scale(c.den, c.B))
 
-GjFailed(c) ==
+\* [failed, known, cls] of a gj case; the determinant and the pivoted
+\* elimination are evaluated once
+GjVerdict(c) ==
     LET ns == Det(c.A) # 0
-    IN  (IF GjWellFormed(c) THEN {} ELSE {"bad_case"})
-        \* "returns 0 for every non-singular system" = "non-zero only for
-        \* singular input"
-        \cup (IF ns /\ c.ret # 0 THEN {"nonsingular_returns_zero"} ELSE {})
-        \cup (IF ns /\ c.ret = 0 /\ ~GjSolutionOK(c)
-              THEN {"nonsingular_solution"} ELSE {})
-
-GjKnown(c) ==
-    IF Det(c.A) # 0 /\ TinyAbsPivot(c.A, c.re, c.ce)
-    THEN {"C13-abs-pivot-tol"} ELSE {}
-
-GjClass(c) ==
-    IF Det(c.A) = 0 THEN "singular"
-    ELSE IF TinyAbsPivot(c.A, c.re, c.ce) THEN "tiny_abs_pivot"
-    ELSE IF ZeroPivot(c.A) THEN "needs_row_exchange"
-    ELSE "regular"
+        tiny == ns /\ TinyAbsPivot(c.A, c.re, c.ce)
+        sol == GjSolutionOK(c)
+        failed ==
+            (IF GjWellFormed(c) THEN {} ELSE {"bad_case"})
+            \* "returns 0 for every non-singular system" = "non-zero only
+            \* for singular input"
+            \cup (IF ns /\ c.ret # 0 THEN {"nonsingular_returns_zero"}
+                  ELSE {})
+            \cup (IF ns /\ c.ret = 0 /\ ~sol THEN {"nonsingular_solution"}
+                  ELSE {})
+            \cup (IF ns /\ c.ret = 0 /\ sol /\ ~GjFineOK(c)
+                  THEN {"nonsingular_accuracy"} ELSE {})
+    IN [failed |-> failed,
+        known |-> IF tiny THEN {"C13-abs-pivot-tol"} ELSE {},
+        cls |-> IF ~ns THEN "singular"
+                ELSE IF tiny THEN "tiny_abs_pivot"
+                ELSE IF ZeroPivot(c.A) THEN "needs_row_exchange"
+                ELSE "regular"]
+GjFailed(c) == GjVerdict(c).failed
+GjKnown(c) == GjVerdict(c).known
+GjClass(c) == GjVerdict(c).cls
 
 (* --- products, identity, layout: exact ---------------------------------
    c.op in {"mm", "mv", "id", "aug", "dot"}; c.a, c.b flat integer inputs,
